@@ -199,6 +199,19 @@ func main() {
 							}
 						}
 					}
+					if callee != nil && callee.Pkg != nil && (callee.Pkg.Pkg.Path() == "sort" || callee.Pkg.Pkg.Path() == "slices") {
+						// sort.Sort / sort.Slice / slices.Sort... reorder their argument in place
+						for _, a := range args {
+							if fromParam(a) {
+								paramStores[f] = append(paramStores[f], "in-place sort")
+							}
+							for _, g := range globalOf(a) {
+								if !isInit {
+									globals[g].writes = append(globals[g].writes, f.String()+": in-place sort")
+								}
+							}
+						}
+					}
 					for _, a := range args {
 						for _, g := range globalOf(a) {
 							if !isInit {
